@@ -9,6 +9,10 @@ from harness.core import Prop, cq, clist
 
 from porepy.geometry.intersections import segments_2d, segments_3d
 
+import logging
+# segments_2d logs an error before raising its ValueError (in-band large-tolerance cases)
+logging.getLogger("porepy.geometry.intersections").setLevel(logging.CRITICAL)
+
 KEY_PROJ = "segments_3d: projected discriminant zero for non-parallel lines"
 KEY_TOUCH = "segments_3d: collinear touching returns two identical columns"
 
